@@ -333,7 +333,7 @@ static void c05_case(uint64_t idx)
 			// length padding from 56): the integrity check must cover every byte up to the last
 			static const unsigned res[] = { 0, 1, 31, 32, 54, 55, 56, 57, 60, 62, 63 };
 			static const lzma_check cks[] = { LZMA_CHECK_CRC32, LZMA_CHECK_CRC64, LZMA_CHECK_SHA256, LZMA_CHECK_SHA256 };
-			size_t n = 64 * (size_t)vrng_below(&r, A.thorough ? 200 : 24) + res[vrng_below(&r, 11)];
+			size_t n = 64 * (size_t)vrng_below(&r, A.thorough ? 48 : 24) + res[vrng_below(&r, 11)];   // (every probe of a base costs O(n), a quarter of them O(n) calls)
 			lzma_check ck = cks[vrng_below(&r, 4)];
 			fmt = F_XZ; multi = false; has_check = true;
 			vbuf_reserve(&plain, n + 1); vrng_fill(&r, plain.p, n); plain.n = n;
